@@ -36,7 +36,7 @@ TRUSTED = [
 ]
 
 DRIVERS = {"ks": {"kind": "gotest", "pkg": "services/keepstore", "test": "TestVerifC04",
-                  "min_chunk": 150, "timeout": 2400}}
+                  "min_chunk": 150, "timeout": 5400}}
 
 VERIF = os.path.dirname(os.path.dirname(os.path.dirname(os.path.abspath(__file__))))
 MATCH = "os.,ioutil.,syscall.,io.Copy,v.os.,v.lockfile,v.lock,tmpfile.Close"
@@ -100,6 +100,10 @@ def _visible_positions(pop, pre):
     n = PSTEPS[(pop, pre)]
     if pop == "touch":
         return list(range(n + 1))
+    if pre == "g":
+        # compare + touch are P's first 8 steps; WriteBlock follows only after a failed touch, i.e. after
+        # Trash's last step, so every placement behind step 8 behaves like the one at 8
+        return list(range(9))
     hidden = set()
     w0 = n - 7  # index of WriteBlock:os.MkdirAll among P's steps
     for off in (1, 4, 5):  # before TempFile, before Close, before Chtimes
@@ -233,7 +237,7 @@ MALFORMED = [
 
 
 def generate(rng, tier):
-    n_hist = 700 if tier == "quick" else 12000
+    n_hist = 700 if tier == "quick" else 6000
     cases = [_gen_hist_one(rng) for _ in range(n_hist)]
     cases += _gen_race(rng, tier)
     cases += MALFORMED
